@@ -1,5 +1,5 @@
 Require Import Coq.Strings.String.
-Require Import Base.Bytes Wire.Layout Wire.Customs Wire.LayoutProofs Wire.CustomProofs Wire.Packet Wire.PacketProofs.
+Require Import Base.Bytes Wire.Layout Wire.Customs Wire.LayoutProofs Wire.CustomProofs Wire.Packet Wire.PacketChecks Wire.PacketProofs.
 Require Import Gen.Packets Net.Frame Net.FrameProofs Props.C03.
 Local Open Scope N_scope.
 Check c03_encoded_frame_wellformed : forall m p fr,
